@@ -595,7 +595,7 @@ func (s *Session) ExploreFrom(fn *ssa.Function, prefixes [][]Decision, splitAt i
 			defer w.Close()
 		}
 	}
-	e := &Explorer{solver: solver, inputs: map[string]sym{}, Reached: map[string]int{}, MaxDecision: cfg.MaxDecisions, journaling: true, SymbolicMapOrder: cfg.MapOrder}
+	e := &Explorer{solver: solver, inputs: map[string]sym{}, Reached: map[string]int{}, MaxDecision: cfg.MaxDecisions, journaling: true, SymbolicMapOrder: cfg.MapOrder, mapOrderDefault: cfg.MapOrder}
 	cur = e
 	defer func() { cur = nil }()
 	e.pending = [][]decision{{}}
@@ -700,6 +700,7 @@ func (e *Explorer) runPath(i *interpreter, fn *ssa.Function, prefix []decision) 
 	e.mapChoices = 0
 	e.unknowns = 0
 	e.panicSite = ""
+	e.SymbolicMapOrder = e.mapOrderDefault
 	e.declaredNow = map[string]bool{}
 	e.solver.send("(push 1)")
 	rec := PathRecord{}
@@ -720,6 +721,9 @@ func (e *Explorer) runPath(i *interpreter, fn *ssa.Function, prefix []decision) 
 				rec.End = "bound:" + x.msg
 			case targetPanic:
 				rec.End = "panic:" + clip(toString(x.v), 120)
+				if os.Getenv("GOSYM_DEBUG") != "" {
+					rec.End += " @ " + clip(e.panicSite, 400)
+				}
 			case runtimeErrorString:
 				rec.End = "panic:" + x.Error()
 			case runtime.Error:
